@@ -215,6 +215,16 @@ func (r *Report) finish(w *World, kf *knownFile, tier string, seed int, evidence
 			"the Go toolchain's view of build tags (default tags, GOOS/GOARCH of this machine)"},
 		"exhaustive": true,
 	}
+	// how the loaded code differs in shape from the reviewed tree, as the analyser read it (renamed functions, new
+	// helpers analysed as part of their callers, table-driven loops read as their unrolled sequence)
+	var shape []string
+	for _, u := range w.unis {
+		shape = append(shape, u.Renames...)
+	}
+	sort.Strings(shape)
+	if len(shape) > 0 {
+		cov["read_as"] = shape
+	}
 	if r.Sweep != nil {
 		cov["sensitivity_sweep"] = r.Sweep
 		cov["evaluations"] = len(r.Obls) + len(controls) + r.Sweep.Variants
